@@ -320,7 +320,7 @@ const TOKENS: &[&str] = &[
     "a", "b", "x=1", "y=", "'q r'", "\"d $v\"", "$v", "${v}", "${v:-w}", "${#v}", "${v%%p*}", "$(c d)", "`c`", "$((1+2))", "$'e\\n\\x41\\cA'", "\\;",
     "~/p", "*?[x]", "if", "then", "elif", "else", "fi", "do", "done", "case", "esac", "while", "until", "for", "in", "{", "}", "!", "function",
     "[[", "]]", ";", "&", "|", "&&", "||", ";;", "(", ")", "\n", "<f", ">f", ">>f", "2>&1", "<&-", ">|f", "<>f", "3<f", "<<E", "<<-E", "'", "\"",
-    "$(", "${", "`", "$((", "$'", "#c", "f()", "a()", "()", "a$", "{ a; }", "( b )", "'f g'", "\"$v\"x",
+    "$(", "${", "`", "$((", "$'", "#c", "f()", "a()", "()", "a$", "{ a; }", "( b )", "'f g'", "\"$v\"x", "a:",
 ];
 
 /// One representative per class that `char` predicates distinguish beyond ASCII: numeric but not
